@@ -167,10 +167,11 @@ func runTrieDB(k *kernel.K) {
 	s.cps = []commitPoint{{logLen: 0, root: s.null, model: su.NewRefMap()}}
 	k.Event("open", "empty trie v%d cache=%v", s.ver, s.cache)
 	steps := k.Range(8, 70, "steps")
+	delW := []int{4, 2, 1}[k.Choose(3, "delete-weight")] // swarm: delete-heavy runs keep tries small, others grow them
 	for i := 0; i < steps; i++ {
 		a := k.Choose(16, "action")
 		switch {
-		case a <= 7:
+		case a < 12-delW:
 			s.put()
 		case a <= 11:
 			s.del()
